@@ -29,7 +29,7 @@ ASSUMPTIONS = [
     'publishers, web UI',
     'handlers of one supervisord main thread are atomic; crashes happen between events',
     'XML-RPC over TCP: a call completes, fails (OSError) or is executed with its answer lost; no silent wire loss '
-    'except PROCESS publications in the C10 profile',
+    'except PROCESS publications in the C10 profile and, for one never-answering program, in the STOP focus of C03',
     'PYTHONHASHSEED pinned to 0; one seed = one execution',
 ]
 
